@@ -132,6 +132,40 @@ def _supp_selftest_runs(jobs):
     return recs
 
 
+def no_default_matrix_supplement(ctx, allc):
+    """Configurations OUTSIDE the design's valid space in one respect: the default quantisation matrix is
+    requested for a transform Annex D has no default for (every wavelet pair x small depths, including no
+    transform at all).  The design says the encoder refuses them; the property speaks about every configuration
+    the encoder ACCEPTS -- an encoder that accepts one of these must still produce a stream the validator accepts."""
+    from vc2_data_tables import QUANTISATION_MATRICES
+
+    have = set((int(a), int(b), c, d) for a, b, c, d in QUANTISATION_MATRICES)
+    base = next(c for c in allc if c["cfg"]["mode"] == "hq_lossless" and c["cfg"]["fsc"] == 0 and c["cfg"]["npics"] >= 1)
+    jobs = []
+    for wi in range(7):
+        for wiho in range(7):
+            for d, dho in ((0, 0), (0, 1), (0, 2), (1, 0), (1, 1), (2, 0)):
+                if (wi, wiho, d, dho) in have:
+                    continue
+                cfg = dict(base["cfg"], wi=wi, wiho=wiho, d=d, dho=dho, qm="default", sx=1, sy=1, npics=1, pn="auto")
+                jobs.append({"tid": len(jobs) + 1, "cfg": cfg, "outcome": base["outcome"], "seed": ctx.seed + len(jobs), "repack": []})
+    results = cc.run_jobs(jobs)
+    records, owner = cc.flatten(results)
+    bad, _, res = cc.judge(records)
+    ctx.add_tlc(res, "trace validation (CodecTrace) of %d runs requesting a default quantisation matrix that Annex D does not define" % len(records))
+    for b in bad:
+        if b["clause"].startswith("C03.") and b["alarm"]:
+            j = owner[b["line"] - 1]
+            rec, det = records[b["line"] - 1], results[j]["detail"]
+            ctx.violation("C03|%s|no-default-matrix|%s" % (b["clause"].split(".", 1)[1], det.get("exc", "")), "%s: the encoder accepted wavelets (%d, %d), depths (%d, %d) with the default quantisation matrix (Annex D has none): enc=%s ser=%s verdict=%s %s" % (b["clause"], rec["cfg"]["wi"], rec["cfg"]["wiho"], rec["cfg"]["d"], rec["cfg"]["dho"], rec["enc"], rec["ser"], rec["verdict"], det.get("exc", "")), cc.case_of(jobs[j]))
+    out = {}
+    for r in records:
+        out[r["enc"]] = out.get(r["enc"], 0) + 1
+    if out.get("refused", 0) + out.get("ok", 0) < len(records) - 5 or len(records) < 100:
+        raise RuntimeError("no-default-matrix supplement: unexpected encoder outcomes %s" % out)
+    return {"runs": len(records), "encoder_outcomes": out}
+
+
 def supplement(ctx, cfgs):
     import time
 
@@ -182,6 +216,7 @@ def supplement(ctx, cfgs):
         "runs_flagged": len(set(b["line"] for b in st_bad)),
         "clauses_flagging_it": sorted(set(b["clause"] for b in st_bad)),
     }
+    stats["no_default_quantisation_matrix"] = no_default_matrix_supplement(ctx, allc)
     stats["wall_s"] = round(time.time() - t0, 1)
     return stats
 
